@@ -203,12 +203,16 @@ Definition dec_signal (bs : bits) : option (option signal * bool) :=
 
 (* Scte35Events.create_binary_signal: the section carried for event k at instant pt *)
 From Verif Require Import Model.EventsModel.
+(* Scte35Events.check_parameters: the fields of a splice_insert have a fixed width *)
+Definition scte35_params_ok (s : sched) (program_id : Z) : bool :=
+  params_ok s && (1 + e_count s / 2 <=? 255) && (e_duration s * 90000 / e_timescale s <=? 8589934591)
+  && (0 <=? program_id) && (program_id <=? 65535).
 Definition event_signal (s : sched) (program_id k pt : Z) : signal :=
   let avail_num := if 0 <? e_count s then 1 + k / 2 else 0 in
   let avails_expected := if 0 <? e_count s then 1 + e_count s / 2 else 0 in
   {| sg_table_id := 252; sg_sap := 0; sg_ssi := false; sg_private := false; sg_protocol := 0;
      sg_enc_alg := 0; sg_pts_adj := 0; sg_cw := 255; sg_tier := 4095;
-     sg_cmd := CInsert {| si_id := k; si_out := true; si_pts := Some (scte35_pts s pt);
+     sg_cmd := CInsert {| si_id := emsg_id_field k; si_out := true; si_pts := Some (scte35_pts s pt);
                           si_break := Some {| bd_auto := Z.even k; bd_dur := scte35_break s |};
                           si_program_id := program_id; si_avail_num := avail_num;
                           si_avails_expected := avails_expected |};
